@@ -123,6 +123,12 @@ fn main() {
                     "blob" => candid::encode_one(vec![7u8; n]),
                     "vecnat16" => candid::encode_one((0..n).map(|i| i as u16).collect::<Vec<u16>>()),
                     "vecnat" => candid::encode_one((0..n).map(|i| Nat::from(i as u64)).collect::<Vec<Nat>>()),
+                    // pointer-like wrappers share the primitive's Candid type but not its memory layout
+                    "vecbox64" => candid::encode_one((0..n).map(|i| Box::new(i as u64)).collect::<Vec<Box<u64>>>()),
+                    "vecrc64" => candid::encode_one((0..n).map(|i| std::rc::Rc::new(i as u64)).collect::<Vec<std::rc::Rc<u64>>>()),
+                    "vecbox16" => candid::encode_one((0..n).map(|i| Box::new(i as u16)).collect::<Vec<Box<u16>>>()),
+                    "vecref64" => { let vals: Vec<i64> = (0..n).map(|i| -(i as i64)).collect(); let refs: Vec<&i64> = vals.iter().collect(); candid::encode_one(refs) }
+                    "arr32" => candid::encode_one([5u32, 6, 7]),
                     _ => return "bad".to_string(),
                 };
                 match r { Ok(b) => format!("ok {}", hexe(&b)), Err(e) => format!("err {}", e) }
